@@ -726,16 +726,18 @@ class Opaque(Type):
     def resolve(self, registry: ext.ExtensionRegistry) -> Type:
         """Resolve the opaque type to an :class:`ExtType` using the given registry.
 
-        If the extension or type is not found, return the original type.
+        If the extension or type is not found, the type stays opaque.
+        Types inside the type arguments are resolved in both cases.
         """
         from hugr.ext import ExtensionRegistry, Extension  # noqa: I001 # no circular import
 
+        args = [arg.resolve(registry) for arg in self.args]
         try:
             type_def = registry.get_extension(self.extension).get_type(self.id)
         except (ExtensionRegistry.ExtensionNotFound, Extension.TypeNotFound):
-            return self
+            return Opaque(self.id, self.bound, args, self.extension)
 
-        return ExtType(type_def, self.args)
+        return ExtType(type_def, args)
 
     def __str__(self) -> str:
         return _type_str(self.id, self.args)
